@@ -1,4 +1,5 @@
 //! C14 — a claimed allocator is inert until the claim ends, then resumes.
+use crate::check;
 use crate::common::*;
 use bump_scope::alloc::Allocator;
 use bump_scope::settings::BumpAllocatorSettings;
@@ -33,39 +34,39 @@ where
     let (g_addr, g_val, g_off, pos_guard_end, chunk_guard_end);
     {
         let mut guard = bump.claim();
-        assert!(bump.is_claimed(), "C14: is_claimed is false while a claim guard is alive");
+        check!(bump.is_claimed(), "C14: is_claimed is false while a claim guard is alive");
         // -- through the original handle: inert --
         let l = any_layout(16, 4);
         kani::assume(l.size() > 0);
-        assert!(bump.allocate(l).is_err(), "C14: allocation through a claimed handle succeeded");
-        assert!(bump.allocate_zeroed(l).is_err(), "C14: zeroed allocation through a claimed handle succeeded");
+        check!(bump.allocate(l).is_err(), "C14: allocation through a claimed handle succeeded");
+        check!(bump.allocate_zeroed(l).is_err(), "C14: zeroed allocation through a claimed handle succeeded");
         let n: usize = kani::any();
-        assert!(bump.try_reserve(n).is_err(), "C14: reserve through a claimed handle succeeded");
-        assert!(bump.try_alloc_uninit::<u32>().is_err(), "C14: typed allocation through a claimed handle succeeded");
-        assert!(bump.try_alloc_uninit_slice::<u16>(n).is_err() || n == 0, "C14: slice allocation through a claimed handle succeeded");
+        check!(bump.try_reserve(n).is_err(), "C14: reserve through a claimed handle succeeded");
+        check!(bump.try_alloc_uninit::<u32>().is_err(), "C14: typed allocation through a claimed handle succeeded");
+        check!(bump.try_alloc_uninit_slice::<u16>(n).is_err() || n == 0, "C14: slice allocation through a claimed handle succeeded");
         let lgrow = any_layout(8, 2);
         kani::assume(lgrow.size() >= lp.size());
-        assert!(unsafe { bump.grow(p, lp, lgrow) }.is_err(), "C14: grow through a claimed handle succeeded");
+        check!(unsafe { bump.grow(p, lp, lgrow) }.is_err(), "C14: grow through a claimed handle succeeded");
         // deallocate / shrink do nothing
         let lshr = any_layout(4, 2);
         kani::assume(lshr.size() <= lp.size());
         let before = addr(guard.stats().current_chunk().unwrap().bump_position());
         let shr = unsafe { bump.shrink(p, lp, lshr) };
         if let Ok(s) = shr {
-            assert!(addr(s.cast()) == addr(p), "C14: shrink through a claimed handle moved the block");
+            check!(addr(s.cast()) == addr(p), "C14: shrink through a claimed handle moved the block");
         }
         unsafe { bump.deallocate(p, lp) };
-        assert!(addr(guard.stats().current_chunk().unwrap().bump_position()) == before, "C14: deallocate/shrink through a claimed handle moved the guard's position");
+        check!(addr(guard.stats().current_chunk().unwrap().bump_position()) == before, "C14: deallocate/shrink through a claimed handle moved the guard's position");
         // stats report an empty arena
         let s = bump.stats();
-        assert!(s.count() == 0 && s.size() == 0 && s.capacity() == 0 && s.allocated() == 0 && s.remaining() == 0, "C14: a claimed handle reports non-zero statistics");
-        assert!(s.current_chunk().is_none(), "C14: a claimed handle reports a current chunk");
+        check!(s.count() == 0 && s.size() == 0 && s.capacity() == 0 && s.allocated() == 0 && s.remaining() == 0, "C14: a claimed handle reports non-zero statistics");
+        check!(s.current_chunk().is_none(), "C14: a claimed handle reports a current chunk");
         // zero-sized values never touch the allocator
-        assert!(bump.try_alloc(()).is_ok(), "C14: zero-sized allocation through a claimed handle failed");
-        assert!(bump.allocate(Layout::new::<()>()).is_ok() || true, "zst layout through allocate: unspecified");
+        check!(bump.try_alloc(()).is_ok(), "C14: zero-sized allocation through a claimed handle failed");
+        check!(bump.allocate(Layout::new::<()>()).is_ok() || true, "zst layout through allocate: unspecified");
 
         // -- through the guard: works, may create a chunk, scopes are undone --
-        assert!(addr(guard.stats().current_chunk().unwrap().bump_position()) == pos0, "C14: the guard does not start where the handle stopped");
+        check!(addr(guard.stats().current_chunk().unwrap().bump_position()) == pos0, "C14: the guard does not start where the handle stopped");
         set_budget(guard_budget);
         let Ok(g) = guard.allocate(lg) else {
             core::mem::forget(guard);
@@ -87,7 +88,7 @@ where
                 Err(_) => 0,
             }
         });
-        assert!(addr(guard.stats().current_chunk().unwrap().bump_position()) == pos_after_g, "C14/C03: a scope opened through the guard was not undone");
+        check!(addr(guard.stats().current_chunk().unwrap().bump_position()) == pos_after_g, "C14/C03: a scope opened through the guard was not undone");
         kani::cover!(inner != 0, "[room] allocated inside a scope inside the claim");
         kani::cover!(guard.stats().count() == 2, "[b1] the guard created a second chunk");
         g_addr = addr(g);
@@ -98,29 +99,29 @@ where
         // nested claim through the guard
         {
             let inner_guard = guard.claim();
-            assert!(guard.is_claimed(), "C14: nested claim not visible");
-            assert!(guard.allocate(lg).is_err(), "C14: allocation through a claimed guard succeeded");
+            check!(guard.is_claimed(), "C14: nested claim not visible");
+            check!(guard.allocate(lg).is_err(), "C14: allocation through a claimed guard succeeded");
             drop(inner_guard);
         }
-        assert!(!guard.is_claimed(), "C14: nested claim did not end");
+        check!(!guard.is_claimed(), "C14: nested claim did not end");
     }
     // -- after the guard is dropped: resumes exactly where the guard stopped --
-    assert!(!bump.is_claimed(), "C14: handle still claimed after the guard was dropped");
+    check!(!bump.is_claimed(), "C14: handle still claimed after the guard was dropped");
     let cur = bump.stats().current_chunk().unwrap();
-    assert!(addr(cur.chunk_start()) == chunk_guard_end && addr(cur.bump_position()) == pos_guard_end, "C14: the handle does not continue where the guard stopped");
-    assert!(bump.stats().allocated() >= allocated0, "C14: allocated byte count went backwards across a claim");
+    check!(addr(cur.chunk_start()) == chunk_guard_end && addr(cur.bump_position()) == pos_guard_end, "C14: the handle does not continue where the guard stopped");
+    check!(bump.stats().allocated() >= allocated0, "C14: allocated byte count went backwards across a claim");
     let l2 = any_layout(8, 3);
     kani::assume(l2.size() > 0);
     if let Ok(q) = bump.allocate(l2) {
         let q = addr(q.cast());
-        assert!(disjoint(q, l2.size(), g_addr, lg.size()), "C14/C01: allocation after the claim overlaps a block allocated through the guard");
-        assert!(disjoint(q, l2.size(), addr(p), lp.size()), "C14/C01: allocation after the claim overlaps a pre-claim block");
+        check!(disjoint(q, l2.size(), g_addr, lg.size()), "C14/C01: allocation after the claim overlaps a block allocated through the guard");
+        check!(disjoint(q, l2.size(), addr(p), lp.size()), "C14/C01: allocation after the claim overlaps a pre-claim block");
         kani::cover!(true, "allocated after the claim");
     }
     let wg = Win::of(cur);
     let win = if w1.holds(g_addr) { w1 } else { wg };
-    assert!(unsafe { win.read(g_addr + g_off) } == g_val, "C14/C02: block allocated through the guard changed");
-    assert!(unsafe { w1.read(addr(p) + ip) } == vp, "C14/C02: pre-claim block changed");
+    check!(unsafe { win.read(g_addr + g_off) } == g_val, "C14/C02: block allocated through the guard changed");
+    check!(unsafe { w1.read(addr(p) + ip) } == vp, "C14/C02: pre-claim block changed");
     kani::cover!(true, "END: harness ran to completion");
 }
 
@@ -154,13 +155,13 @@ fn claim_unallocated() {
     let g_addr;
     {
         let guard = bump.claim();
-        assert!(bump.is_claimed(), "C14: is_claimed false on a claimed unallocated arena");
-        assert!(bump.allocate(lg).is_err(), "C14: allocation through a claimed unallocated handle succeeded");
+        check!(bump.is_claimed(), "C14: is_claimed false on a claimed unallocated arena");
+        check!(bump.allocate(lg).is_err(), "C14: allocation through a claimed unallocated handle succeeded");
         let n: usize = kani::any();
-        assert!(bump.try_reserve(n).is_err(), "C14: reserve through a claimed handle (GUARANTEED_ALLOCATED = false) succeeded");
-        assert!(bump.is_claimed(), "C14: a request through the claimed handle ended the claim");
-        assert!(bump.stats().count() == 0, "C14: claimed unallocated handle reports chunks");
-        assert!(calls() == 0, "C14: a request through a claimed handle reached the base allocator");
+        check!(bump.try_reserve(n).is_err(), "C14: reserve through a claimed handle (GUARANTEED_ALLOCATED = false) succeeded");
+        check!(bump.is_claimed(), "C14: a request through the claimed handle ended the claim");
+        check!(bump.stats().count() == 0, "C14: claimed unallocated handle reports chunks");
+        check!(calls() == 0, "C14: a request through a claimed handle reached the base allocator");
         set_budget(1);
         let Ok(g) = guard.allocate(lg) else {
             core::mem::forget(guard);
@@ -168,14 +169,14 @@ fn claim_unallocated() {
         };
         set_budget(0);
         g_addr = addr(g.cast());
-        assert!(guard.stats().count() == 1, "C14: guard on an unallocated arena did not create exactly one chunk");
+        check!(guard.stats().count() == 1, "C14: guard on an unallocated arena did not create exactly one chunk");
     }
-    assert!(!bump.is_claimed(), "C14: still claimed");
-    assert!(bump.stats().count() == 1, "C14: the chunk created through the guard is not visible through the handle");
+    check!(!bump.is_claimed(), "C14: still claimed");
+    check!(bump.stats().count() == 1, "C14: the chunk created through the guard is not visible through the handle");
     let l2 = any_layout(4, 2);
     kani::assume(l2.size() > 0);
     if let Ok(q) = bump.allocate(l2) {
-        assert!(disjoint(addr(q.cast()), l2.size(), g_addr, lg.size()), "C14/C01: allocation after the claim overlaps the guard's block");
+        check!(disjoint(addr(q.cast()), l2.size(), g_addr, lg.size()), "C14/C01: allocation after the claim overlaps the guard's block");
         kani::cover!(true, "allocated after the claim");
     }
     kani::cover!(true, "END: harness ran to completion");
